@@ -9,6 +9,8 @@ import (
 	"encoding/base64"
 	"encoding/json"
 	"fmt"
+	"strconv"
+	"strings"
 	"sync"
 	"sync/atomic"
 	"time"
@@ -53,8 +55,57 @@ var (
 	junkClasses   = []string{"plain", "threedots", "blank"}
 )
 
+// statusCodes: what a remote system (identity endpoint, introspection endpoint, JWKS endpoint, metadata endpoint) may
+// answer to presented credentials instead of a usable document. The classes "http<code>" (reference tokens, sessions),
+// "jwkshttp<code>" and "metahttp<code>" (JWTs whose issuer names a tenant with such an endpoint) carry the code.
+var statusCodes = []int{400, 401, 403, 404, 409, 422, 429, 500, 502, 503}
+
+const (
+	issJWKSStatus = "iss-jwks-http-" // + code: the JWKS endpoint of this issuer answers with that status
+	issMetaStatus = "iss-meta-http-" // + code: the metadata endpoint of this issuer answers with that status
+)
+
+// statusOf: the remote system and the status code a status class names.
+func statusOf(class string) (string, int, bool) {
+	for _, p := range []string{"jwkshttp", "metahttp", "http"} {
+		if rest, ok := strings.CutPrefix(class, p); ok {
+			if n, err := strconv.Atoi(rest); err == nil {
+				return p, n, true
+			}
+		}
+	}
+	return "", 0, false
+}
+
+// statusIssuers: the issuers whose JWKS endpoint answers with a status code (trusted issuers of the jwt authenticators).
+func statusIssuers() []any {
+	var out []any
+	for _, c := range statusCodes {
+		out = append(out, issJWKSStatus+strconv.Itoa(c))
+	}
+	return out
+}
+
+// sizes of credential values: "" = as short as the kind allows, the others are padded to just above the named size.
+var sizes = map[string]int{"4KiB": 4 << 10, "8KiB": 8 << 10, "64KiB": 64 << 10}
+
+// padding: n characters that are legal in headers, cookies, base64 and JSON strings.
+func padding(n int, salt int64) string {
+	const abc = "abcdefghijklmnopqrstuvwxyzABCDEFGHIJKLMNOPQRSTUVWXYZ0123456789"
+	b := make([]byte, n)
+	x := uint64(salt)*2654435761 + 12345
+	for i := range b {
+		x = x*6364136223846793005 + 1442695040888963407
+		b[i] = abc[(x>>33)%uint64(len(abc))]
+	}
+	return string(b)
+}
+
 // classGroup groups the classes the way the task's catalogue names them (for coverage counters).
 func classGroup(kind, class string) string {
+	if _, _, ok := statusOf(class); ok {
+		return "endpoint-failing"
+	}
 	switch {
 	case class == "valid" || class == "validnokid":
 		return "valid"
@@ -127,7 +178,8 @@ func es256(k *ecdsa.PrivateKey, input string) string {
 	return b64u.EncodeToString(out)
 }
 
-func (m *minter) jwt(class, sub string) string {
+// jwt mints a token of the class; minLen > 0: a claim "pad" makes the compact form at least minLen bytes long.
+func (m *minter) jwt(class, sub string, minLen int) string {
 	now := time.Now()
 	hdr := map[string]any{"alg": "ES256", "typ": "JWT", "kid": kidOK}
 	claims := map[string]any{
@@ -178,12 +230,26 @@ func (m *minter) jwt(class, sub string) string {
 		claims["iss"] = []any{42, []string{issOK}, map[string]any{"name": issOK}, true}[nextNonce()%4]
 	case "badpayload":
 	default:
-		panic("unknown jwt class " + class)
+		switch ep, code, ok := statusOf(class); {
+		case ok && ep == "jwkshttp":
+			claims["iss"] = issJWKSStatus + strconv.Itoa(code)
+		case ok && ep == "metahttp":
+			claims["iss"] = issMetaStatus + strconv.Itoa(code)
+		default:
+			panic("unknown jwt class " + class)
+		}
 	}
 	hb, _ := json.Marshal(hdr)
 	cb, _ := json.Marshal(claims)
+	if short := len(b64u.EncodeToString(hb)) + len(b64u.EncodeToString(cb)) + 88; minLen > short {
+		claims["pad"] = padding((minLen-short)*3/4+16, nextNonce())
+		cb, _ = json.Marshal(claims)
+	}
 	if class == "badpayload" {
 		cb = []byte(fmt.Sprintf("this is not json %d", nextNonce()))
+		if minLen > 0 {
+			cb = append(cb, " "+padding(minLen*3/4, nextNonce())...)
+		}
 	}
 	input := b64u.EncodeToString(hb) + "." + b64u.EncodeToString(cb)
 	var sig string
@@ -205,8 +271,20 @@ func (m *minter) jwt(class, sub string) string {
 
 // mint creates and registers a value of the given kind/class. user/pass are only used for basic.
 func (m *minter) mint(kind, class, sub string, user, pass string) string {
+	return m.mintSized(kind, class, sub, user, pass, 0)
+}
+
+// mintSized: as mint; minLen > 0 asks for a value of at least minLen bytes (where the kind and class leave room for it:
+// the valid Basic credentials are what the configuration says).
+func (m *minter) mintSized(kind, class, sub string, user, pass string, minLen int) string {
 	n := nextNonce()
 	var v string
+	pad := func(have int) string {
+		if minLen <= have {
+			return ""
+		}
+		return "_" + padding(minLen-have, n)
+	}
 	info := credInfo{Kind: kind, Class: class, Sub: sub}
 	switch kind {
 	case "basic":
@@ -218,9 +296,10 @@ func (m *minter) mint(kind, class, sub string, user, pass string) string {
 			info.User, info.Pass = user, pass
 		case "wrongpw":
 			plain = fmt.Sprintf("%s:bad-%d", user, n)
+			plain += pad(len(plain) * 4 / 3)
 			info.User = user
 		case "wronguser":
-			plain = fmt.Sprintf("mallory%d:%s", n, pass)
+			plain = fmt.Sprintf("mallory%d%s:%s", n, pad(len(pass)*4/3+16), pass)
 		case "colonpw":
 			plain = fmt.Sprintf("%s:%s:x%d", user, pass, n)
 			info.User = user
@@ -235,18 +314,21 @@ func (m *minter) mint(kind, class, sub string, user, pass string) string {
 			v = base64.StdEncoding.EncodeToString([]byte(plain))
 		}
 	case "jwt":
-		v = m.jwt(class, sub)
+		v = m.jwt(class, sub, minLen)
 	case "opaque":
 		v = fmt.Sprintf("op_%s_%d", class, n)
+		v += pad(len(v))
 	case "sess":
 		v = fmt.Sprintf("sess_%s_%d", class, n)
+		v += pad(len(v))
 	case "junk":
 		info.Sub = ""
 		switch class {
 		case "plain":
 			v = fmt.Sprintf("zzz%d", n)
+			v += pad(len(v))
 		case "threedots":
-			v = fmt.Sprintf("a%d.b.c", n)
+			v = fmt.Sprintf("a%d%s.b.c", n, pad(8))
 		case "blank":
 			v = " "
 		default:
